@@ -231,8 +231,9 @@ func GenerateRoutes(
 	logger.Debug("Formatting %d bytes of output code", len(result))
 	formattedOutput, err := compilation.OptimizeImportsAndFormat(result)
 	if err != nil {
-		logger.Warn("Could not format output - %v", err)
-		formattedOutput = result
+		// Output that cannot even be parsed is never going to compile - fail rather than leave a broken file behind
+		logger.Fatal("Generated routes code is not valid Go and could not be formatted - %v", err)
+		return fmt.Errorf("generated routes code is not valid Go - %w", err)
 	}
 
 	err = os.MkdirAll(filepath.Dir(args.OutputPath), 0755)
